@@ -22,23 +22,33 @@ def run(tier):
     mockbuild.build_all()
     uni = mockbuild.universe()
     gen = common.run_tlc("MCGrafts", "MCGrafts_%s.cfg" % tier)
-    bases = gen.tagged("CASE")
+    # second base family: queries that call C++ functions supplied through metadata (their calls are grafted with a
+    # wrong number of arguments / the wrong call style); these carry the functions' declarations
+    gen2 = common.run_tlc("MCGrafts", "MCGrafts_userfn.cfg")
     cases = []
     nbase = 0
     grafts_total = 0
-    for i, b in enumerate(bases):
-        if b["support"] != "MUST_ACCEPT":
-            continue
-        nbase += 1
-        for g in b["grafts"]:
-            grafts_total += 1
-            how = g["how"]
-            if how.endswith("@atlas"):
-                backend = "atlas"
-            else:
-                backend = BACKENDS[(i + len(cases)) % 3]
-            cases.append({"backend": backend, "q": g["q"], "support": "MUST_REJECT", "how": how.split("@")[0],
-                          "base": b["q"]})
+    seen_q = set()
+    for fam, bases in (("core", gen.tagged("CASE")), ("userfn", gen2.tagged("CASE"))):
+        for i, b in enumerate(bases):
+            if b["support"] != "MUST_ACCEPT":
+                continue
+            nbase += 1
+            for g in b["grafts"]:
+                how = g["how"]
+                if fam == "userfn" and not how.startswith(("userfn_", "builtin_fn_")):
+                    continue
+                k = json.dumps(g["q"], sort_keys=True)
+                if k in seen_q:
+                    continue
+                seen_q.add(k)
+                grafts_total += 1
+                if how.endswith("@atlas"):
+                    backend = "atlas"
+                else:
+                    backend = BACKENDS[(i + len(cases)) % 3]
+                cases.append({"backend": backend, "q": g["q"], "support": "MUST_REJECT", "how": how.split("@")[0],
+                              "base": b["q"], "fam": fam})
     cap = 4000 if tier == "quick" else 40000
     exhaustive = True
     if len(cases) > cap:
@@ -51,7 +61,11 @@ def run(tier):
         exhaustive = False
     for i, c in enumerate(cases):
         c["id"] = i + 1
-        c["src"] = render.render(c["q"], uni, c["backend"], render.Style(method_style=(i % 3 != 0)))
+        md = None
+        if c["fam"] == "userfn":
+            b = c["backend"]
+            md = [{k: v for k, v in m.items() if v != ""} for m in uni["md"][b]] + [{k: v for k, v in m.items() if v != ""} for m in uni["fnmd"][b]]
+        c["src"] = render.render(c["q"], uni, c["backend"], render.Style(method_style=(i % 3 != 0)), md=md)
     events, er = pipeline.generate_events(2)
     recs = pipeline.run_cases(cases, events, [[1]], keep_emitted=True)
     verdicts, summaries, vs, vt = pipeline.validate(recs, events)
@@ -75,8 +89,8 @@ def run(tier):
                        "emitted": rec.get("emitted", "")[-5000:]})
     raised = sum(1 for r in recs if r["translate"]["outcome"] == "raise")
     cov = {
-        "states": gen.distinct + er.distinct + vs,
-        "transitions": gen.generated + er.generated + vt,
+        "states": gen.distinct + gen2.distinct + er.distinct + vs,
+        "transitions": gen.generated + gen2.generated + er.generated + vt,
         "traces_validated_against_impl": len(recs),
         "evaluations": len(recs),
         "distinct_nontrivial": len({(render.compact(c["q"]), c["backend"]) for c in cases}),
